@@ -30,6 +30,7 @@ type c06Case struct {
 	CPkts   []c06Pkt `json:"client_packets"`
 	HWrites []int    `json:"host_writes"`
 	Sched   []bool   `json:"schedule"` // true = client sends next packet, false = host writes next chunk
+	Tails   []int    `json:"unit_tails,omitempty"` // per transport unit: 1 = a keep-alive packet, 2 = a packet of unknown type travels in the same unit behind the data packet(s)
 	Group   []int    `json:"group"`    // client packets i..i+Group[i]-1 travel in one transport unit (one websocket message / one write of HTTP chunks)
 }
 
@@ -91,6 +92,11 @@ func genC06(t *rapid.T, maxTotal int) c06Case {
 	}
 	for i := 0; i < len(c.CPkts)+len(c.HWrites); i++ {
 		c.Sched = append(c.Sched, rapid.Bool().Draw(t, "who"))
+	}
+	if rapid.IntRange(0, 2).Draw(t, "tails") == 0 {
+		for range c.CPkts {
+			c.Tails = append(c.Tails, rapid.SampledFrom([]int{0, 0, 1, 1, 2}).Draw(t, "tail"))
+		}
 	}
 	if rapid.IntRange(0, 2).Draw(t, "grouped") == 0 {
 		for i := range c.CPkts {
@@ -249,6 +255,25 @@ func runC06On(c c06Case, o gwOpts, tgt gwc.Target) *Violation {
 			i += n
 		}
 		cunits = grouped
+	}
+	// non-data packets sharing a transport unit with the data in front of them
+	for i := range cunits {
+		if i >= len(c.Tails) || c.Tails[i] == 0 {
+			continue
+		}
+		tail := tsgu.Keepalive()
+		if c.Tails[i] == 2 {
+			tail = tsgu.Packet(0x0C, []byte{9, 9})
+		}
+		if _, isLegacy := conn.(*gwc.Legacy); isLegacy {
+			g, ok := legacyGroups[i]
+			if !ok {
+				g = [][]byte{cunits[i]}
+			}
+			legacyGroups[i] = append(append([][]byte{}, g...), tail)
+		} else {
+			cunits[i] = append(append([]byte{}, cunits[i]...), tail...)
+		}
 	}
 	sendUnit := func(i int) error {
 		if g, ok := legacyGroups[i]; ok {
